@@ -63,6 +63,7 @@ type FuncVer struct {
 	heapSorts  map[string]*Sort
 	heapTypes  map[string]types.Type
 	mapKeySorts map[string]*Sort
+	curCallbackSig *types.Signature
 	ghostLocals map[string]*ghostLocal
 	pointees    map[string]pointee
 	trustedCalls map[string]bool // callees whose preconditions are assumed, not proved, at this function's call sites
